@@ -9,7 +9,7 @@ ROOT = os.path.dirname(os.path.dirname(os.path.abspath(__file__)))
 CLAIMED = {
  "C01": ("fault_enumeration",
   "property-based testing (rapid) + enumeration of truncation/fault points + native coverage-guided fuzzing, in an isolated worker process",
-  "Generated-input search: every truncation and every third reader-fault point of small well-formed files of each container is enumerated; rapid draws structure-addressed malformations, byte mutations, magic+random bodies and reader fault specs over samples and encoder output; thorough adds a native fuzz campaign. Oracle: the call returns in an isolated process (recovered panic or process death = violation). Bounded search: shows absence only on what was explored.",
+  "Generated-input search: every truncation and every third reader-fault point of small well-formed files of each container is enumerated, as is a HEIF Exif item swept byte by byte across two 4 KiB reader-buffer boundaries; rapid draws structure-addressed malformations, byte mutations, magic+random bodies and reader fault specs over samples and encoder output; thorough adds a native fuzz campaign. Oracle: the call returns in an isolated process (recovered panic or process death = violation). Bounded search: shows absence only on what was explored.",
   "Trusted: the worker protocol and Go's recover/exit-status reporting. Inputs <= 256 KiB. ScanJPEG/ParseXmp recover internally by contract."),
  "C02": ("exploration",
   "property-based testing (rapid) with an instrumented reader and watchdog + native fuzzing",
@@ -17,11 +17,11 @@ CLAIMED = {
   "Trusted: the instrumented ReadSeeker counts; wall clock only for confirmed non-termination."),
  "C03": ("exploration",
   "property-based testing (rapid): round trip through an independent TIFF/Exif encoder, record as oracle",
-  "decode(encode(record, layout)) is compared field by field with the record through a spec-written interpretation; layouts cover block order, padding, foreign tags, embedded vs out-of-line, the 84-pending-tag and 128-entry limits, both byte orders, buffered and unbuffered entry points.",
+  "decode(encode(record, layout)) is compared field by field with the record through a spec-written interpretation; layouts cover block order, padding, foreign tags, embedded vs out-of-line, the 84-pending-tag and 128-entry limits, both byte orders, buffered and unbuffered entry points; fixed-seed records are re-encoded with IFD0 at every offset 8..4500 (thorough 12700) so that every structure crosses every 1 KiB / 4 KiB reader-window boundary.",
   "Trusted: the check's own TIFF/Exif encoder (written from TIFF 6.0/Exif 2.32, with an independent re-parse self-test) and field model (DESIGN Appendix A)."),
  "C06": ("exploration",
   "property-based testing (rapid): differential across containers + record oracle",
-  "The same generated payload in TIFF/JPEG/PNG/CR3(CMT1 and split)/HEIF with random surroundings must give identical masked digests through every corresponding entry point and equal the record.",
+  "The same generated payload in TIFF/JPEG/PNG/CR3(CMT1 and split)/HEIF with random surroundings must give identical masked digests through every corresponding entry point and equal the record; a second check (filler independence) puts format-valid filler of every length up to one (thorough: three) 4 KiB buffers in front of the block in JPEG/PNG/CR3/HEIF and requires the result of the same file without filler.",
   "Trusted: container writers in internal/gen; signature-free surroundings before HEIF payloads (soundness precondition of the format's own scan)."),
  "C07": ("exploration",
   "property-based testing (rapid): metamorphic II vs MM + record oracle",
